@@ -1,5 +1,5 @@
 import Vgi.Model.ScriptStream
-import Vgi.Drive.ScriptParse
+import Vgi.Drive.StreamParse
 /-!
 Line-protocol driver for C06 (pipe streams of the scripted family).
 
@@ -15,154 +15,7 @@ Request ids are not shown (C06 does not speak about them). An exception batch is
 contains one of the script's panic values, `exc fw` otherwise (framework wording is not compared).
 -/
 namespace Vgi.Drive.C06
-open Vgi Vgi.Script Vgi.Drive.ScriptParse
-
-abbrev P (α : Type) := List String → Option (α × List String)
-
-def pWord : P String
-  | w :: r => some (w, r)
-  | [] => none
-
-def expect (w : String) : List String → Option (List String)
-  | x :: r => if x = w then some r else none
-  | [] => none
-
-def pProp : P Bool
-  | "p" :: r => some (true, r)
-  | "i" :: r => some (false, r)
-  | _ => none
-
-def pKVList : P KVs := fun ws => do
-  let (k, ws) ← pNat ws
-  pKVs k ws
-
-def pField (s : String) : Option Field :=
-  match s.splitOn ":" with
-  | [n, t, "0"] => some { name := n, typ := t, nullable := false }
-  | [n, t, "1"] => some { name := n, typ := t, nullable := true }
-  | _ => none
-
-def pFields (s : String) : Option Schema :=
-  if s = "-" then some [] else (s.splitOn ",").mapM pField
-
-def pOptFields (s : String) : Option (Option Schema) :=
-  if s = "nil" then some none else (pFields s).map some
-
-def pEnd : P TurnEnd
-  | "ok" :: r => some (.ok, r)
-  | "err" :: r => (pErrVal r).map fun (e, r) => (.fail e, r)
-  | "panic" :: r => (pPanicVal r).map fun (p, r) => (.panic p, r)
-  | _ => none
-
-def pOp : P TurnOp
-  | "log" :: r => (pLogCall r).map fun (lc, r) => (.log lc, r)
-  | "emit" :: v :: r => do
-    let (md, r) ← pKVList r
-    let (p, r) ← pProp r
-    pure (.emit v md p, r)
-  | "echo" :: r => (pProp r).map fun (p, r) => (.echo p, r)
-  | "finish" :: r => (pProp r).map fun (p, r) => (.finish p, r)
-  | _ => none
-
-def pOps : Nat → P (List TurnOp)
-  | 0, ws => some ([], ws)
-  | n + 1, ws => do
-    let (o, ws) ← pOp ws
-    let (r, ws) ← pOps n ws
-    pure (o :: r, ws)
-
-def pTurn : P Turn := fun ws => do
-  let (n, ws) ← pNat ws
-  let (ops, ws) ← pOps n ws
-  let (e, ws) ← pEnd ws
-  pure ({ ops := ops, fin := e }, ws)
-
-def pTurns : Nat → P (List Turn)
-  | 0, ws => some ([], ws)
-  | n + 1, ws => do
-    let (t, ws) ← pTurn ws
-    let (r, ws) ← pTurns n ws
-    pure (t :: r, ws)
-
-def pStateKind : String → Option StateKind
-  | "prod" => some .prod | "exch" => some .exch | "both" => some .both | "neither" => some .neither
-  | _ => none
-
-def pHook : String → Option CancelHook
-  | "absent" => some .absent | "ok" => some .ok | "err" => some .err | "panic" => some .panic
-  | _ => none
-
-def pInit : P InitOutcome
-  | "ok" :: st :: hk :: hdr :: insch :: r => do
-    let st ← pStateKind st
-    let hk ← pHook hk
-    let insch ← if insch = "-" then some none else (pFields insch).map some
-    pure (.ok st hk (if hdr = "-" then none else some hdr) insch, r)
-  | "err" :: r => (pErrVal r).map fun (e, r) => (.fail e, r)
-  | "panic" :: r => (pPanicVal r).map fun (p, r) => (.panic p, r)
-  | "nil" :: r => some (.nilResult, r)
-  | _ => none
-
-def pScript : P StreamScript := fun ws => do
-  let ws ← expect "INIT" ws
-  let (n, ws) ← pNat ws
-  let (logs, ws) ← pLogCalls n ws
-  let (init, ws) ← pInit ws
-  let ws ← expect "TURNS" ws
-  let (n, ws) ← pNat ws
-  let (turns, ws) ← pTurns n ws
-  let ws ← expect "REST" ws
-  let (rest, ws) ← pTurn ws
-  pure ({ initLogs := logs, init := init, turns := turns, rest := rest }, ws)
-
-def pInBatch : P InBatch
-  | "c" :: r => some (.cancel, r)
-  | "d" :: v :: lib :: r => some (.data v (if lib = "fail" || lib = "-" then none else some lib), r)
-  | _ => none
-
-def pInBatches : Nat → P (List InBatch)
-  | 0, ws => some ([], ws)
-  | n + 1, ws => do
-    let (b, ws) ← pInBatch ws
-    let (r, ws) ← pInBatches n ws
-    pure (b :: r, ws)
-
-def pInput : P InputStream := fun ws => do
-  let ws ← expect "IN" ws
-  let (f, ws) ← pWord ws
-  let sc ← pFields f
-  let (n, ws) ← pNat ws
-  let (bs, ws) ← pInBatches n ws
-  pure ({ schema := sc, batches := bs }, ws)
-
-def pStreamType : String → Option StreamType
-  | "producer" => some .producer | "exchange" => some .exchange | "dynamic" => some .dynamic
-  | _ => none
-
-def pMethod : P SMethod
-  | t :: out :: reg :: inf :: hh :: hs :: r => do
-    let t ← pStreamType t
-    let reg ← pBool reg
-    let inf ← pOptFields inf
-    let hh ← pBool hh
-    pure ({ typ := t, outputSchema := out, registeredOutput := reg, inputSchema := inf,
-            hasHeader := hh, headerSchema := hs }, r)
-  | _ => none
-
-structure Call where
-  m : SMethod
-  lvl : Bytes
-  rid : Bytes
-  script : StreamScript
-  input : InputStream
-
-def pCall : P Call := fun ws => do
-  let (m, ws) ← pMethod ws
-  let (lvl, ws) ← pBytes ws
-  let (rid, ws) ← pBytes ws
-  let (s, ws) ← pScript ws
-  let (inp, ws) ← pInput ws
-  pure ({ m := m, lvl := lvl, rid := rid, script := s, input := inp }, ws)
+open Vgi Vgi.Script Vgi.Drive.ScriptParse Vgi.Drive.StreamParse
 
 /-! ### Canonical rendering -/
 
